@@ -55,8 +55,8 @@ esac
 if [ "$MODE" = "thorough" ] && [ $rc -eq 0 ] && [ "${VERIF_NO_FUZZ:-0}" != "1" ]; then
     S="${VERIF_SEED:-0}"
     case "$ID" in
-        C01) FZ="synth_structured synthesis ${VERIF_FUZZ_RUNS:-400000}" ;;
-        C02) FZ="gen_history random-history ${VERIF_FUZZ_RUNS:-300000}" ;;
+        C01) FZ="synth_structured synthesis ${VERIF_FUZZ_RUNS:-100000}" ;;
+        C02) FZ="gen_history random-history ${VERIF_FUZZ_RUNS:-100000}" ;;
         C17) FZ="label_text - ${VERIF_FUZZ_RUNS:-3000000}" ;;
         C18) FZ="load_voice - ${VERIF_FUZZ_RUNS:-1500000}" ;;
         *) FZ="" ;;
